@@ -313,8 +313,39 @@ class Embedded(SubCheck):
         return out
 
 
+def stale_check(svg, tier):
+    """the chain is a function of the arc's current fields: convert, edit the same Arc object, convert again"""
+    from props import stale
+    P = svg.Point
+    sources = {
+        "arc-ecc": lambda: svg.Arc(P(0, 0), 10, 5, 30, 0, 1, P(7, 4)),
+        "arc-circle-rot": lambda: svg.Arc(P(0, 0), 6, 6, 40, 1, 0, P(4, 3)),
+        "arc-big": lambda: svg.Arc(start=P(4, 0), center=P(0, 0), prx=P(4, 0), pry=P(0, 2), sweep=5.0),
+        "path-with-arcs": lambda: svg.Path("M0,0 A10,5 30 0 1 7,4 a3,6 -45 1 0 -4,1.5 L2,2 Z"),
+    }
+
+    def conv(kind, n):
+        def f(o):
+            if isinstance(o, svg.Path):
+                q = __import__("copy").copy(o)
+                (q.approximate_arcs_with_cubics if kind == "cubic" else q.approximate_arcs_with_quads)()
+                return [repr(s) for s in q]
+            return [repr(c) for c in (o.as_cubic_curves(n) if kind == "cubic" else o.as_quad_curves(n))]
+        return f
+    measures = {"cubics": conv("cubic", None), "quads": conv("quad", None), "cubics(5)": conv("cubic", 5)}
+    extra = {
+        "subpath.reverse": lambda o: o.subpath(0).reverse() if isinstance(o, svg.Path) else stale.c18._na(),
+        "seg.end=": lambda o: setattr(stale.c18.first_seg_with(o, "sweep"), "end", svg.Point(7.5, 3.5)),
+        "seg.sweep=-": lambda o: setattr(stale.c18.first_seg_with(o, "sweep"), "sweep", -stale.c18.first_seg_with(o, "sweep").sweep),
+        "seg*=mirror": lambda o: stale.c18.first_seg_with(o, "sweep").__imul__(svg.Matrix(-1, 0, 0, 1, 0, 0)),
+        "seg*=rot": lambda o: stale.c18.first_seg_with(o, "sweep").__imul__(svg.Matrix(0, 1, -1, 0, 0, 0)),
+        "arc.reverse": lambda o: stale.c18.first_seg_with(o, "sweep").reverse(),
+    }
+    return stale.Stale(svg, measures, kinds=[], extra_sources=sources, extra_mutations=extra, depth=2)
+
+
 def build(tier, seed, svg):
-    return [Arcs(svg, tier), Embedded(svg, tier)]
+    return [Arcs(svg, tier), Embedded(svg, tier), stale_check(svg, tier)]
 
 
 MATCHERS = {}
